@@ -36,9 +36,10 @@ package aggregator
 //@   ensures[coherent] cacheOK(a)
 
 //@ func (a *Aggregator) Shutdown()
-//@   trusted
+//@   property C14
 //@   requires a.shutdown != nil && !closed(a.shutdown)
 //@   modifies closed(a.shutdown), a.wg.n
+//@   ensures[stop_requested] closed(a.shutdown)
 
 // ---------------------------------------------------------------- processor.go (C10)
 // Ghost state of every processor: the values contributed so far, in arrival order, and their
@@ -433,7 +434,7 @@ package aggregator
 //@ func New(fun string, matcher matcher.Matcher, outFmt string, cache bool, interval uint, wait uint, dropRaw bool, out chan []byte) (*Aggregator, error)
 //@   property C14,C20
 //@   fresh
-//@   modifies spawned("(*github.com/grafana/carbon-relay-ng/aggregator.Aggregator).run")
+//@   modifies spawned("(*github.com/grafana/carbon-relay-ng/aggregator.Aggregator).run"), spawned("github.com/grafana/carbon-relay-ng/clock.AlignedTick$1")
 //@   ensures[usable; C14] result1 == nil ==> result0 != nil && result0.Interval > 0 && result0.Matcher.Regex != ""
 //@   ensures[as_configured; C20] result1 == nil ==> result0.Fun == fun && result0.OutFmt == outFmt && result0.Cache == cache && result0.Interval == interval && result0.Wait == wait && result0.DropRaw == dropRaw && result0.out == out
 //@        && result0.Matcher.Prefix == matcher.Prefix && result0.Matcher.NotPrefix == matcher.NotPrefix && result0.Matcher.Sub == matcher.Sub && result0.Matcher.NotSub == matcher.NotSub && result0.Matcher.Regex == matcher.Regex && result0.Matcher.NotRegex == matcher.NotRegex
